@@ -1,6 +1,7 @@
 package engines
 
 import (
+	"encoding/gob"
 	"fmt"
 	"math"
 
@@ -13,8 +14,44 @@ import (
 
 // hostModuleAttrs returns a fresh attribute map of the simulator's builtin
 // module "host": every value kind, mutable containers, and functions.
+// HostState is a stateful builtin-module value that is *not* a Copier: the
+// module's Go functions and every program that imports the module share this
+// one object (after decoding only through the re-binding of fixObjects).
+type HostState struct {
+	ugo.ObjectImpl
+	N int
+}
+
+func (o *HostState) TypeName() string { return "hoststate" }
+func (o *HostState) String() string   { return "<hoststate>" }
+func (o *HostState) IndexGet(index ugo.Object) (ugo.Object, error) {
+	if index.String() == "n" {
+		return ugo.Int(o.N), nil
+	}
+	return ugo.Undefined, nil
+}
+func (o *HostState) CanonID() string { return "hoststate" }
+
+func init() { gob.Register((*HostState)(nil)) }
+
+var hostStates []*HostState
+
+// resetHostStates zeroes the Go-side state of every host module built so far.
+func resetHostStates() {
+	for _, st := range hostStates {
+		st.N = 0
+	}
+}
+
 func hostModuleAttrs() map[string]ugo.Object {
+	st := &HostState{}
+	hostStates = append(hostStates[:0], st) // one live module map per run
 	return map[string]ugo.Object{
+		"state": st,
+		"bump": &ugo.Function{Name: "bump", Value: func(args ...ugo.Object) (ugo.Object, error) {
+			st.N++
+			return ugo.Int(st.N), nil
+		}},
 		"int":    ugo.Int(-42),
 		"maxint": ugo.Int(math.MaxInt64),
 		"minint": ugo.Int(math.MinInt64),
